@@ -70,7 +70,8 @@ class Family:
 
 
 def fname(ex):
-    return ex.task.label.split(':')[-1]
+    import re
+    return re.sub(r'\{(=[^}]*|other)\}$', '', ex.task.label.split(':')[-1])
 
 
 # ---------------------------------------------------------------------------------------
@@ -354,4 +355,104 @@ class Raises(Family):
         pass
 
 
-ALL_FAMILIES = [Budget, Scopes, Values, Raises]
+# ---------------------------------------------------------------------------------------
+NUMERIC_BUILTINS = {'int', 'float', 'round', 'floor', 'ceil', 'abs', 'sum', 'min', 'max'}
+
+
+def max_digits(vals):
+    """digits of the widest NUMERIC value among vals"""
+    m = z3.IntVal(0)
+    for v in vals:
+        d = z3.If(L.is_numeric(v), L.digits_of(v), 0)
+        m = z3.If(d > m, d, m)
+    return m
+
+
+class Digits(Family):
+    """C04: multiplication / exponentiation only on Decimals (N1); no numeric operator or numeric builtin
+    returns more significant digits than max(28, 1 + its widest numeric argument), float() exempt (N2).
+    C08 E2: Decimal operands never produce a binary float."""
+
+    def on_entry(self, ex, ctx):
+        self.ctx = ctx
+        self.role = ex.task.role
+        self.name = ctx.get('builtin_name')
+
+    def on_event(self, ex, ev):
+        if ev[0] == 'prim' and ev[1] == 'binop':
+            _, _, op, a, b, inplace, r = ev
+            n = fname(ex)
+            if op in ('*', '**'):
+                ex.prove('C04:%s:%s-only-on-Decimals-never-native' % (n, op), ['C04'],
+                         z3.And(L.is_Dec(a), L.is_Dec(b)), {'watch': {'left': a, 'right': b}})
+            if op in ('+', '-', '*', '/', '**'):
+                ex.prove('C08:%s:%s-on-decimals-stays-decimal' % (n, op), ['C08'],
+                         z3.Implies(z3.And(z3.Or(L.is_Dec(a), L.is_Dec(b)), z3.Not(L.is_Float(a)), z3.Not(L.is_Float(b))),
+                                    L.is_Dec(r)))
+        if ev[0] == 'float_of' and self.name != 'float':
+            ex.prove('C08:%s:no-conversion-through-binary-float' % fname(ex), ['C08'], z3.Not(L.is_Dec(ev[1])),
+                     {'watch': {'converted': ev[1]}})
+
+    def inputs(self, ex, ctx):
+        if self.role == 'op_override':
+            vals = [e[4] for e in ex.events if e[0] == 'call' and e[1] == 'op_eval' and e[5] is None]
+            vals += [e[3] for e in ex.events if e[0] == 'lookup' and e[3] is not None]
+            return vals
+        from .calls import Pack
+        out = []
+        for a in ctx.get('args', []):
+            if isinstance(a, Pack):
+                r = Val.tref(a.val)
+                out.append(ctx['entry'].lelt(r, 0))        # floor / ceil take exactly one argument
+                continue
+            out.append(ex.to_val(a))
+        return out
+
+    def on_exit(self, ex, ctx, outcome):
+        if outcome[0] != 'return':
+            return
+        relevant = (self.role == 'op_override' and ctx.get('cls') in ('BinOp', 'UnaryOp')) or \
+                   (self.role == 'builtin' and self.name in NUMERIC_BUILTINS and self.name != 'float') or \
+                   (self.role == 'helper' and ex.task.key.endswith('_multiply'))
+        stores = []
+        if self.role == 'op_override' and ctx.get('cls') == 'ShortOp':
+            stores = [e[3] for e in ex.events if e[0] == 'store_name']
+        if self.role == 'builtin' and self.name == '__setitem_with_op__':
+            stores = [w[6][-1] for w in ex.events if w[0] == 'write' and w[2] in ('setitem', 'store') and w[6]]
+        if not relevant and not stores:
+            return
+        ins = self.inputs(ex, ctx)
+        if self.role == 'helper':
+            ins = [ctx['a'], ctx['b']]
+        results = stores if stores else [outcome[1]]
+        if self.name in ('sum', 'min', 'max'):
+            # list arguments: the widest element is what counts
+            for e in ex.events:
+                if e[0] == 'sum_of':
+                    ins = ins + [L.UF('widest_elem', I, z3.ArraySort(I, Val), Val)(e[2], e[3])]
+                if e[0] == 'elem_of':
+                    ins = ins + [e[1]]
+        if self.role == 'builtin':
+            # the quantifier of N2: numeric arguments (a precision / key argument may be None or an int)
+            all_num = L.is_numeric(ins[0]) if ins else z3.BoolVal(True)
+        else:
+            all_num = z3.And([L.is_numeric(v) for v in ins] or [z3.BoolVal(True)])
+        if self.name in ('sum', 'min', 'max'):
+            all_num = z3.BoolVal(True)
+        for v in ins:
+            ex.small_int_axioms(z3.If(L.is_Bool(v), z3.If(Val.b(v), 1, 0), Val.i(v)))
+            ex.assume(z3.Implies(L.is_Dec(v), L.dec_digits(Val.d(v)) >= 1))
+        for r in results:
+            bound = max_digits([v for v in ins])
+            lim = z3.If(bound + 1 > 28, bound + 1, 28)
+            ex.prove('C04:%s:result-has-at-most-max(28,1+widest-argument)-digits' % fname(ex), ['C04'],
+                     z3.Implies(z3.And(all_num, L.is_numeric(r), z3.Not(L.is_Float(r))), L.digits_of(r) <= lim),
+                     {'watch': {'result': r, 'result_digits': L.digits_of(r), 'widest_argument_digits': bound}})
+            if self.name != 'float':
+                ex.prove('C08:%s:decimal-arguments-never-give-a-binary-float' % fname(ex), ['C08'],
+                         z3.Implies(z3.And([z3.Or(L.is_Dec(v), L.is_Int(v), L.is_Bool(v)) for v in ins] +
+                                           [z3.Or([L.is_Dec(v) for v in ins] or [z3.BoolVal(False)])]),
+                                    z3.Not(L.is_Float(r))), {'watch': {'result': r}})
+
+
+ALL_FAMILIES = [Budget, Scopes, Values, Raises, Digits]
